@@ -332,10 +332,19 @@ func (c *conn) reset(io netio) {
 func pingProbe(io netio, ident, seq int, d time.Duration) error {
 	pay := wire.Pattern(ident*31+seq, 24)
 	msg := wire.BuildICMPv4Echo(8, uint16(ident), uint16(seq), pay)
-	io.Inject(1, 0x0800, [][]byte{ipWrap(4, 1, 1, msg, ident)})
-	_, ok := io.Wait(func(e *emit) bool {
-		return e.d.kind == "icmp4" && e.d.itype == 0 && e.d.ident == ident && e.d.iseq == seq && bytes.Equal(e.d.payload, pay)
-	}, d)
+	// echo requests are answered only while fewer than ten are pending: like ping, repeat until answered
+	deadline := time.Now().Add(d)
+	ok := false
+	for try := 300 * time.Millisecond; !ok && time.Now().Before(deadline); try *= 2 {
+		io.Inject(1, 0x0800, [][]byte{ipWrap(4, 1, 1, msg, ident)})
+		w := time.Until(deadline)
+		if w > try {
+			w = try
+		}
+		_, ok = io.Wait(func(e *emit) bool {
+			return e.d.kind == "icmp4" && e.d.itype == 0 && e.d.ident == ident && e.d.iseq == seq && bytes.Equal(e.d.payload, pay)
+		}, w)
+	}
 	if !ok {
 		return fmt.Errorf("echo request ident %#x seq %d not answered within %v", ident, seq, d)
 	}
